@@ -350,6 +350,32 @@ pub fn clear_delay() -> bool {
     DELAY_FIRED.with(|f| f.replace(false))
 }
 
+thread_local! {
+    /// free-running threads: (lock releases to go, microseconds) - keep a lock a while longer
+    static HOLD: Cell<(u32, u32)> = const { Cell::new((0, 0)) };
+}
+
+/// Free-running threads only: sleep `micros` microseconds just before this thread's `after`-th
+/// lock release from now, i.e. hold that lock longer (timed lock attempts of other threads
+/// then run into their timeouts).
+pub fn set_hold(after: u32, micros: u32) {
+    HOLD.with(|d| d.set((after, micros)));
+}
+
+pub fn clear_hold() {
+    HOLD.with(|d| d.set((0, 0)));
+}
+
+fn hold_point() {
+    let (n, us) = HOLD.with(|d| d.get());
+    if n > 0 {
+        HOLD.with(|d| d.set((n - 1, us)));
+        if n == 1 {
+            std::thread::sleep(std::time::Duration::from_micros(us as u64));
+        }
+    }
+}
+
 fn delay_point() {
     let (n, us) = DELAY.with(|d| d.get());
     if n > 0 {
@@ -405,7 +431,10 @@ pub fn try_acquire(addr: usize, m: Mode) -> Option<bool> {
 /// preempted while it still holds the lock, so that other threads run *inside* its critical
 /// section (a blocking acquisition by them just blocks; a try-lock observes the lock held).
 pub fn release(addr: usize, m: Mode) {
-    let Some(me) = TID.with(|t| t.get()) else { return };
+    let Some(me) = TID.with(|t| t.get()) else {
+        hold_point();
+        return;
+    };
     let g = if std::thread::panicking() { None } else { sched_point(me, m) };
     let mut g = match g {
         Some(g) => g,
